@@ -28,6 +28,8 @@ var registry = map[string]propDef{
 	"C03c": {"other", props.C03ctors},
 	"C04":  {"other", props.C04},
 	"C04t": {"other", props.C04tweak},
+	"C04e": {"other", props.C04errtext},
+	"C04j": {"other", props.GateHelpers},
 	"C04s": {"other", props.C04rand},
 	"C04g": {"other", props.C04rows},
 	"C04o": {"other", props.C01offset},
